@@ -178,6 +178,39 @@ Theorem C02_solve_wrapper : forall aitken secant tol H Tguess Hm Cnm T a b Tg c,
 Proof. exact solve_wrapper_lemma. Qed.
 Print Assumptions C02_solve_wrapper.
 
+(* Mixture.(x)solve_T_at_HP / SP release the mixture's work-space (_free_energy_args) whether the solve returns
+   or raises, so no later property evaluation can see another stream's entries *)
+Theorem C02_workspace_released_H : forall loaded aitken secant tol H Tguess Hm Cnm,
+  snd (solve_T_at_HP_ws loaded aitken secant tol H Tguess Hm Cnm) = [].
+Proof. intros. apply workspace_released_lemma. Qed.
+Print Assumptions C02_workspace_released_H.
+Theorem C02_workspace_released_S : forall loaded expf aitken secant tol S Tguess Sm Cnm,
+  snd (solve_T_at_SP_ws loaded expf aitken secant tol S Tguess Sm Cnm) = [].
+Proof. intros. apply workspace_released_lemma. Qed.
+Print Assumptions C02_workspace_released_S.
+
+(* ---------------------------------------------------------------- histories: the property memo shared by a stream
+   and its proxies never shows.  For EVERY sequence of proxy creations, reads of H / S / h through any handle,
+   assignments of T, P, phase, H, S, h, Hnet (also `s.X = s.X`), mixes and separations, starting from sound memos:
+   each observation and each stream state is exactly what the memo-free machine gives, i.e. every read (including
+   those made inside mix_from / separate_out and by `s.X = s.X`) returns the property of the CURRENT state *)
+Theorem C02_history_memo_transparent : forall O ops cells hs,
+  Forall (memo_wf O) cells ->
+  Forall (memo_wf O) (fst (snd (hrun O (get_prop O) (cells, hs) ops))) /\
+  trun O (map cs cells, hs) ops =
+    (fst (hrun O (get_prop O) (cells, hs) ops),
+     (map cs (fst (snd (hrun O (get_prop O) (cells, hs) ops))), snd (snd (hrun O (get_prop O) (cells, hs) ops)))).
+Proof. exact hrun_sim. Qed.
+Print Assumptions C02_history_memo_transparent.
+
+(* one read through the memo *)
+Theorem C02_read_current_state : forall O name flow c,
+  memo_wf O c ->
+  fst (get_prop O name flow c) = tval O name flow (cs c) /\
+  cs (snd (get_prop O name flow c)) = cs c /\ memo_wf O (snd (get_prop O name flow c)).
+Proof. exact get_prop_spec. Qed.
+Print Assumptions C02_read_current_state.
+
 (* ---------------------------------------------------------------- the contracts are satisfiable: the linear stub
    (H = sum n (Cn(phase) (T - Tref) + L(phase)), solver = one step of iter_T_at_HP) meets all of them *)
 Theorem C02_stub_contracts : forall c hf Tref, contracts (lin_oracles c hf Tref).
@@ -191,7 +224,7 @@ Proof. exact lin_solve_fix. Qed.
 Print Assumptions C02_stub_solve_fix.
 
 (* ---------------------------------------------------------------- non-vacuity *)
-Definition exC := mkP [64; 32; 128] [32; 16; 64] [8192; 4096; 16384].
+Definition exC := mkP [64; 32; 128] [32; 16; 64] [8192; 4096; 16384] [4; 2; 8] [16; 8; 32].
 Definition exO := lin_oracles exC [-1024; -512; 256] (5963 # 20).
 Definition exA := mkS false [(4%nat, [2; 0; 0])] 350 200000.
 Definition exB := mkS false [(3%nat, [0; 4; 0])] 320 101325.
@@ -247,7 +280,7 @@ Proof.
 Qed.
 
 (* the phase-flip branch: the first solve fails, the flipped phase is solved *)
-Definition exOs := mkO (lin_H exC (5963 # 20)) (fun _ _ _ _ => 0)
+Definition exOs := mkO (lin_H exC (5963 # 20)) (lin_S exC (5963 # 20))
                        (fun m x Tg P => match m with [(4%nat, _)] => Err ERuntime | _ => lin_solve exC (5963 # 20) m x Tg P end)
                        (fun _ _ _ _ => Err EOther) [].
 Example C02_setH_flip_nonvacuous :
@@ -258,3 +291,16 @@ Example C02_iter_nonvacuous :
   exists T' c', iter_T_at_HP 350 8192 (fun t => 224 * t - 224 * (5963 # 20)) (fun _ => 224) (O, None) = Ok (T', c') /\
                 224 * T' - 224 * (5963 # 20) == 8192.
 Proof. eexists; eexists. split; vm_compute; reflexivity. Qed.
+
+(* a history with a proxy: read through the proxy, move the stream through the original, read there, come back to the
+   first temperature, read through the proxy again: a memo hit, and the value of the current state *)
+Example C02_history_nonvacuous :
+  let ops := [HProxy 0; HRead 1 0 true; HSet 0 0 8192; HRead 0 0 true; HSetT 1 350; HRead 1 0 true] in
+  let r := hrun exO (get_prop exO) ([mkCell exA None], [0%nat]) ops in
+  Forall (memo_wf exO) [mkCell exA None] /\
+  nth 5 (fst r) ONone = OVal (Some (getH exO exA)) /\ nth 3 (fst r) ONone <> nth 5 (fst r) ONone /\
+  snd (snd r) = [0%nat; 0%nat].
+Proof.
+  split; [repeat constructor|]. split; [vm_compute; reflexivity|]. split; [vm_compute; discriminate|].
+  vm_compute; reflexivity.
+Qed.
